@@ -49,7 +49,8 @@ func StdOps(conf *cfg.Config, r *rand.Rand, rich bool) []probe.Op {
 		if rich || r.Intn(2) == 0 {
 			ops = append(ops, probe.Op{Op: "get", Name: n})
 		}
-		if s.Getter != nil && !s.IsTodo() {
+		if s.Getter != nil && !s.IsTodo() && (*s.Getter)[0] >= 'A' && (*s.Getter)[0] <= 'Z' {
+			// (a getter that starts with a lower-case letter is legal but not callable from the probe's package)
 			ops = append(ops, probe.Op{Op: "getter", Name: *s.Getter})
 			if rich || r.Intn(2) == 0 {
 				ops = append(ops, probe.Op{Op: "getterctx", Name: *s.Getter + "InContext", Ctx: 1})
@@ -201,7 +202,8 @@ func behaviourUnits(c *Ctx, lab *probe.Lab, units []*probe.Unit, nontrivial func
 			continue
 		}
 		if !u.Compiled {
-			c.Add("configs_not_compiling(reported_by_C01)", 1)
+			c.Add("configs_not_compiling", 1)
+			c.Violate("does-not-compile:"+errClass(u.CompileErr), fmt.Sprintf("unit %s: the generated code of an accepted configuration does not compile, so the container exhibits none of the declared behaviour:\n%s", u.ID, firstLines(u.CompileErr, 8)), unitFiles(u))
 			continue
 		}
 		if u.ProbeErr != "" && len(u.Results) == 0 {
